@@ -77,7 +77,8 @@ def effective_timeout(t: dict, inv: dict) -> T.Optional[float]:
 
 def is_active_victim(t: dict, inv: dict, it: int) -> bool:
     et = effective_timeout(t, inv)
-    return bool(t['victim']) and et is not None and et * 1000 * 4 <= _pick(t['dur'], it)
+    # a victim outlives its limit either itself (dur) or through a leaked helper holding its stdout (leak)
+    return bool(t['victim']) and et is not None and et * 1000 * 4 <= max(_pick(t['dur'], it), t.get('leak', 0))
 
 
 def expected_results(t: dict, it: int) -> T.Set[str]:
@@ -264,6 +265,18 @@ def check_run(proj: dict, inv: dict, evs: T.Sequence[dict], testlog: T.Optional[
     if traceback or rc not in (0, 1):
         V.append(('internal-error', {'rc': rc, 'out_tail': out[-800:]}))
 
+    # leaked helpers (probe mode leak=) log C* events under their own pid; they are kept out of the interval sweeps
+    helpers: T.Dict[int, dict] = {}
+    for e in evs:
+        if str(e.get('ev', '')).startswith('C'):
+            h = helpers.setdefault(e['pid'], {'pid': e['pid'], 'ppid': e.get('ppid'), 'id': e['id'], 'it': e['it'],
+                                              'ended': False, 'term': False})
+            if e['ev'] == 'CEND':
+                h['ended'] = True
+            elif e['ev'] == 'CTERM':
+                h['term'] = True
+    evs = [e for e in evs if not str(e.get('ev', '')).startswith('C')]
+    cnt('monitor:helpers_seen', len(helpers))
     runs, anomalies = intervals(evs)
     if anomalies:
         inc.append('probe-log-anomaly')
@@ -311,12 +324,35 @@ def check_run(proj: dict, inv: dict, evs: T.Sequence[dict], testlog: T.Optional[
             if r.get('alive'):
                 cnt('diag:interrupt_reported_while_still_running')
 
+    limit_passed = [r for r in records if r.get('ev') == 'h_limit_passed']
+
     # --- testlog entries
     entries: T.Dict[T.Tuple[str, int], T.List[dict]] = {}
     for e in testlog or []:
         tid, it = entry_id(e)
         entries.setdefault((tid, it), []).append(e)
     results: T.Dict[T.Tuple[str, int], str] = {k: v[0].get('result') for k, v in entries.items()}
+
+    # --- the harness itself found the limit passed with the process or its pipes still pending: then the run must be
+    #     reported TIMEOUT and the process group must have been signalled (facts about calls, not about clocks)
+    maxfail_hit_possible = inv['maxfail'] > 0
+    for r in limit_passed:
+        cnt('monitor:limit_passed')
+        k = (r.get('name'), r.get('it'))
+        res = results.get(k)
+        if res != 'TIMEOUT':
+            if maxfail_hit_possible and res in (None, 'INTERRUPT'):
+                cnt('diag:limit_passed_then_cut_short')
+            else:
+                t = by.get(k[0]) or {}
+                V.append(('limit-passed-but-not-reported-TIMEOUT:' + str(res) +
+                          (':pipe-held-by-descendant' if t.get('leak') else ''),
+                          {'test': k[0], 'iteration': k[1], 'result': res, 'limit_s': r.get('timeout'),
+                           'signals_sent': signalled.get(r.get('pid'), [])}))
+        if not signalled.get(r.get('pid')):
+            if not (maxfail_hit_possible and res in (None, 'INTERRUPT')):
+                V.append(('limit-passed-but-process-group-never-signalled', {'test': k[0], 'iteration': k[1],
+                                                                             'result': res}))
 
     # --- A. start counts
     starts: T.Dict[T.Tuple[str, int], int] = {}
@@ -439,12 +475,20 @@ def check_run(proj: dict, inv: dict, evs: T.Sequence[dict], testlog: T.Optional[
                     V.append(('interrupt-without-maxfail', {'test': tid, 'iteration': it}))
                 continue
             if victim:
+                leaky = t.get('leak', 0) > 0 and _pick(t['dur'], it) < t.get('leak', 0)
+                if leaky:
+                    hl = [h for h in helpers.values() if h['id'] == tid and h['it'] == it]
+                    finished = bool(hl) and all(h['ended'] for h in hl)
+                else:
+                    finished = run is not None and run['ended']
                 if res == 'TIMEOUT':
                     cnt('cov:result_TIMEOUT')
-                    cnt('cov:victim_term_' + t['term'])
-                    if run is not None and run['ended']:
+                    cnt('cov:leaky_victim_TIMEOUT' if leaky else 'cov:victim_term_' + t['term'])
+                    if leaky and t.get('leakterm') == 'ignore':
+                        cnt('cov:leaky_sigterm_ignoring_helper_probe')
+                    if finished:
                         cnt('diag:timeout_but_END_logged')
-                elif run is not None and run['ended']:
+                elif finished or (leaky and run is None):
                     timeouts_inconclusive = True
                     cnt('inconclusive:victim-finished-before-timeout-fired')
                 else:
@@ -560,6 +604,15 @@ def check_run(proj: dict, inv: dict, evs: T.Sequence[dict], testlog: T.Optional[
     cnt('monitor:pids_gone', len(rl))
     for a in alive:
         res = results.get((a.get('id'), a.get('it')))
+        if a.get('helper'):
+            # a leaked descendant of the test (same process group) survived `meson test`
+            t = by.get(a.get('id'), {})
+            if res == 'TIMEOUT':
+                V.append(('descendant-left-running-after-TIMEOUT:sigterm-' + str(t.get('leakterm', 'default')),
+                          {'pid': a['pid'], 'test': a.get('id'), 'helper': helpers.get(a['pid'])}))
+            else:
+                cnt('diag:descendant_left_running:' + str(res))
+            continue
         if res in (None, 'INTERRUPT'):
             # in flight when the run was cut short by --maxfail: the property does not speak about it
             cnt('diag:process_left_running_after_interrupt')
